@@ -233,8 +233,6 @@ class Oracle:
             return f"look-up by id answers {d['find']}, live ids are {exp}"
         if any(i > d["max"] for i in ids):
             return f"maximum id {d['max']} is below a live id {ids}"
-        if any(s > d["max"] for s in self.seen):
-            return f"maximum id {d['max']} is below an id seen since last emptied {sorted(self.seen)}"
         for a in range(3):
             c = sum(1 for n in d["nodes"] if n["name"] == a)
             if d["kw"][a] != c:
@@ -257,7 +255,7 @@ def evaluate(ctx, histories, own, real_cmd, model_cmd, env, dump_every=1, label=
         return problems
     real_ok = (rc_r == 0 and len(out_r) == len(lines))
     # walk
-    orc, bad_h = None, set()
+    orc, bad_h, corr_h = None, set(), set()
     for j, (hi, oi, kind) in enumerate(index):
         if hi in bad_h:
             continue
@@ -278,9 +276,10 @@ def evaluate(ctx, histories, own, real_cmd, model_cmd, env, dump_every=1, label=
                 e = f"unparsable answer {out_r[j][:200]!r} ({ex})"
             if e:
                 problems.append((hi, "property", f"after op #{oi}: {e}")); bad_h.add(hi); continue
-        if out_r[j] != out_m[j]:
+        if out_r[j] != out_m[j] and hi not in corr_h:
+            # keep judging this history with the oracle: the disagreement may be the first sign of a violation
             problems.append((hi, "correspondence", f"op #{oi}: impl {out_r[j][:300]!r} vs model {out_m[j][:300]!r}"))
-            bad_h.add(hi)
+            corr_h.add(hi)
     if not real_ok and not problems:
         problems.append((0, "property", f"implementation exited rc={rc_r}: {err_r[-400:]}"))
     for hi, seq in enumerate(histories):
@@ -351,13 +350,6 @@ def report(ctx, problems, histories, own, real_cmd, model_cmd, env):
         seen_kinds.add("property")
         if len(ctx.violations) >= 3:
             break
-    if "property" not in seen_kinds:
-        for hi, kind, detail in problems:
-            if kind == "correspondence":
-                seq = shrink(ctx, histories[hi], own, real_cmd, model_cmd, env, "correspondence")
-                ctx.broken.append(("correspondence InstMgr model vs src/clstepcore/instmgr.cc",
-                                   f"{detail}; minimal history: {[op_line(o) for o in seq]} (oracle finds the property intact on it)"))
-                break
 
 
 def run(ctx):
@@ -394,19 +386,29 @@ def run(ctx):
     rnd = [random_seq(ctx.rng, rlen, 5, [0, 0, 1, 2, 3, 7, 1000, -4]) for _ in range(nrand)]
     batches.append(("random", rnd, 1))
     batches.append(("growth", [growth_seq(1100 if quick else 2300)], 64))
-    all_problems = False
+    corr = None          # first model/implementation disagreement (kept while the search goes on)
+    stop = False
     for label, hist, de in batches:
         for own in (0, 1):
             t = time.time()
             pr = evaluate(ctx, hist, own, real_cmd, model_cmd, env, dump_every=de, label=label)
             ctx.cov["correspondence"][f"{label}/own={own}"] = {"histories": len(hist), "problems": len(pr),
                                                                "wall_s": round(time.time() - t, 1)}
-            if pr:
-                all_problems = True
+            if any(k == "property" for _, k, _ in pr):
                 report(ctx, pr, hist, own, real_cmd, model_cmd, env)
+                stop = True
                 break
-        if all_problems:
+            if pr and corr is None:
+                hi, kind, detail = pr[0]
+                seq = shrink(ctx, hist[hi], own, real_cmd, model_cmd, env, "correspondence")
+                corr = (detail, [op_line(o) for o in seq])
+                # violation search: the remaining batches still run, judged by the oracle alone
+        if stop:
             break
+    if corr is not None and not ctx.violations:
+        ctx.cov["search"] = "model/implementation disagreement; every remaining history batch was still judged by the property oracle and satisfied it"
+        ctx.broken.append(("correspondence InstMgr model vs src/clstepcore/instmgr.cc",
+                           f"{corr[0]}; minimal disagreeing history: {corr[1]} (the property oracle is satisfied on every history explored)"))
     if hist:
         ctx.sample({"owning": 0, "ops": [op_line(o) for o in rnd[0][:25]]})
         ex = exhaustive(3, nh, ids)
